@@ -25,7 +25,8 @@ MANIFEST = {
             'stopped, with the bound computed from the code\'s own timers: every head reaches the greatest height, every '
             'node holds the complete chain of its head; after a tie-breaking block a broadcast transaction reaches every '
             'pool; afterwards no block or transaction data message is sent any more.'
-            ' A quarter of the networks put all nodes on one host (ports differ); stars may have every spoke behind NAT so that the hub is the only path.',
+            ' A quarter of the networks put all nodes on one host (ports differ); stars may have every spoke behind NAT so that the hub is the only path.'
+            ' Branches may contain a block of (nearly) the maximum size.',
     'note': 'Trusted: simulated TCP/selector/clock, the liveness bound formula (DESIGN 6.C10), history below block 1 is a '
             'trusted easy-target block (bulk download never validates in chain). Clock skew above 10 s legitimately rejects '
             'fresh blocks and is excluded.',
